@@ -330,6 +330,17 @@ func (s *StateMachine) CheckReplay(tx *lib.Transaction, txHash string) lib.Error
 		if txResult != nil && txResult.TxHash == txHash {
 			return lib.ErrDuplicateTx(txHash)
 		}
+		// the same signed content under any other signature / encoding is the same transaction
+		contentHash, err := tx.ContentHash()
+		if err != nil {
+			return err
+		}
+		if txResult, err = store.GetTxByHash(contentHash); err != nil {
+			return err
+		}
+		if txResult != nil && txResult.TxHash != "" {
+			return lib.ErrDuplicateTx(txResult.TxHash)
+		}
 		if IsRLPMemo(tx.Memo) && tx.Signature != nil && len(tx.Signature.Signature) != 0 {
 			publicKey, _ := crypto.NewPublicKeyFromBytes(tx.Signature.PublicKey)
 			if _, ok := publicKey.(*crypto.ETHSECP256K1PublicKey); ok {
